@@ -210,8 +210,8 @@ static void one_case(uint64_t idx)
     snprintf(d, sizeof(d), "{\"driver\":\"drv_cpuid\",\"prop\":\"C13\",\"seed\":%llu,\"case\":%llu,\"variant\":\"%s\"}", (unsigned long long)vh_seed, (unsigned long long)idx, vh_variant);
     if (!trapped) model = M_HOST;
     int stepped = (model == M_XCR0_NO_YMM || model == M_XCR0_X87_ONLY);
-    int vex_watch = idx < 96;                     /* single-stepping costs ~3 us per instruction: only the first two sweeps */
-    if (stepped && idx >= 192) { VH_COUNT("single_step_models_skipped_after_four_sweeps", 1); return; }
+    int vex_watch = idx < 48;                     /* single-stepping costs ~3 us per instruction: only the first two sweeps */
+    if (stepped && idx >= 96) { VH_COUNT("single_step_models_skipped_after_two_sweeps", 1); return; }
     int no_avx = (model == M_NO_OSXSAVE || model == M_NO_AVX || model == M_NO_SSE2 || stepped);
     snprintf(key, sizeof(key), "C13:%s:%s", INITS[fi].name, mname[model]);
     vh_case_begin(idx, key, d);
